@@ -126,5 +126,151 @@ Definition chk_index (ticks : list (option N * list N)) (outs : list (list (N * 
             forallb (fun p => lists_eqb (fst p) (snd p)) (combine outs (px_index 0 ticks))) 1)
       (if idx_pre None ticks outs then bit (nodupb (map fst (concat outs))) 2 else 0).
 
+(* ------------------------------------------------------------------------------------------
+   The ACCEPTOR node of the whole `paxos_core` program (acceptor_p1 + acceptor_p2 as wired by
+   paxos_core), one step per tick:
+     max ballot  := max over all p1a ballots ever received (this tick's batch included);
+     log         := per slot, the p2a with the highest ballot among those received while
+                    Some(ballot) >= max ballot (first arrival wins among equal ballots);
+     p1b reply   := Ok(log AFTER this tick's p2as) if Some(ballot) = max ballot, else Err(max ballot);
+     p2b reply   := Ok if Some(ballot) = max ballot, else Err(max ballot)
+   (note: a p2a above the promised ballot is stored but answered Err and does not raise the
+   promise).  Checkpoints (log truncation) are not modelled: no checkpoint is ever fed. *)
+Definition ob_lt (a b : option ballot) : bool :=
+  match a, b with None, Some _ => true | Some x, Some y => b_lt x y | _, None => false end.
+Definition ob_eqb (a b : option ballot) : bool :=
+  match a, b with None, None => true | Some x, Some y => b_eqb x y | _, _ => false end.
+Definition ob_max (a b : option ballot) : option ballot := if ob_lt a b then b else a.
+
+Definition aentry := (N * (ballot * option N))%type.          (* slot, (ballot, value) *)
+Record acc := mkAcc { a_max : option ballot; a_log : list aentry }.
+Definition acc_init : acc := mkAcc None [].
+Definition p2amsg := (N * ballot * N * option N)%type.          (* sender, ballot, slot, value *)
+
+Fixpoint place (lg : list aentry) (s : N) (e : ballot * option N) : list aentry :=
+  match lg with
+  | [] => [(s, e)]
+  | (s', e') :: r =>
+      if s <? s' then (s, e) :: lg
+      else if s =? s' then (if b_lt (fst e') (fst e) then (s, e) :: r else lg)
+      else (s', e') :: place r s e
+  end.
+
+Definition p1brep := (N * ballot * (list aentry + option ballot))%type.   (* to, ballot, Ok log | Err max *)
+Definition p2brep := (N * N * ballot * option (option ballot))%type.      (* to, slot, ballot, None = Ok | Some max = Err *)
+
+Definition acc_tick (st : acc) (p1as : list ballot) (p2as : list p2amsg) : acc * list p1brep * list p2brep :=
+  let mx := fold_left (fun m b => ob_max m (Some b)) p1as (a_max st) in
+  let lg := fold_left (fun lg (m : p2amsg) =>
+                         let '(_, b, s, v) := m in if ob_lt (Some b) mx then lg else place lg s (b, v))
+                      p2as (a_log st) in
+  (mkAcc mx lg,
+   map (fun b => (snd b, b, if ob_eqb (Some b) mx then inl lg else inr mx)) p1as,
+   map (fun (m : p2amsg) => let '(sd, b, s, _) := m in
+                            (sd, s, b, if ob_eqb (Some b) mx then None else Some mx)) p2as).
+
+Fixpoint acc_run (st : acc) (ticks : list (list ballot * list p2amsg)) : list (list p1brep * list p2brep) :=
+  match ticks with
+  | [] => []
+  | (p1, p2) :: t => let '(st', o1, o2) := acc_tick st p1 p2 in (o1, o2) :: acc_run st' t
+  end.
+
+Definition ae_eqb (a b : aentry) : bool :=
+  (fst a =? fst b) && b_eqb (fst (snd a)) (fst (snd b)) && ov_eqb (snd (snd a)) (snd (snd b)).
+Fixpoint list_eqb {A} (eqb : A -> A -> bool) (a b : list A) : bool :=
+  match a, b with [] , [] => true | x :: a', y :: b' => eqb x y && list_eqb eqb a' b' | _, _ => false end.
+Definition p1b_eqb (a b : p1brep) : bool :=
+  (fst (fst a) =? fst (fst b)) && b_eqb (snd (fst a)) (snd (fst b)) &&
+  match snd a, snd b with
+  | inl l1, inl l2 => list_eqb ae_eqb l1 l2
+  | inr m1, inr m2 => ob_eqb m1 m2
+  | _, _ => false
+  end.
+Definition p2b_eqb (a b : p2brep) : bool :=
+  let '(t1, s1, b1, r1) := a in let '(t2, s2, b2, r2) := b in
+  (t1 =? t2) && (s1 =? s2) && b_eqb b1 b2 &&
+  match r1, r2 with None, None => true | Some m1, Some m2 => ob_eqb m1 m2 | _, _ => false end.
+Definition mset_eqb {A} (eqb : A -> A -> bool) (a b : list A) : bool :=
+  Nat.eqb (length a) (length b) &&
+  forallb (fun x => Nat.eqb (length (filter (eqb x) a)) (length (filter (eqb x) b))) a.
+
+(* the refinement obligations, evaluated on the IMPLEMENTATION's replies (executable form of
+   PaxosModel.report_ok and of the guard of P2b):
+   - an Ok p2b (a vote) is never for a ballot below an earlier Ok'd ballot;
+   - every Ok p1b log consists of p2as really received, and covers every earlier vote: for a vote
+     (slot, ballot c) it has an entry for that slot with a ballot >= c. *)
+Fixpoint acc_obl (seen : list p2amsg) (voted : list (N * ballot)) (hi : option ballot)
+         (ticks : list (list ballot * list p2amsg)) (outs : list (list p1brep * list p2brep)) : bool :=
+  match ticks, outs with
+  | (_, p2) :: t, (o1, o2) :: os =>
+      let seen' := p2 ++ seen in
+      let oks := flat_map (fun (r : p2brep) => let '(_, s, b, e) := r in match e with None => [(s, b)] | Some _ => [] end) o2 in
+      let p1oks := flat_map (fun (r : p1brep) => match snd r with inl _ => [snd (fst r)] | inr _ => [] end) o1 in
+      let voted' := oks ++ voted in
+      forallb (fun sb => negb (ob_lt (Some (snd sb)) hi)) oks &&
+      forallb (fun b => negb (ob_lt (Some b) hi)) p1oks &&
+      forallb (fun (r : p1brep) =>
+                 match snd r with
+                 | inr _ => true
+                 | inl lg =>
+                     forallb (fun (e : aentry) =>
+                                existsb (fun (m : p2amsg) => let '(_, b, s, v) := m in
+                                           (s =? fst e) && b_eqb b (fst (snd e)) && ov_eqb v (snd (snd e))) seen') lg &&
+                     forallb (fun sb => existsb (fun (e : aentry) => (fst e =? fst sb) && negb (b_lt (fst (snd e)) (snd sb))) lg) voted'
+                 end) o1 &&
+      acc_obl seen' voted'
+              (fold_left (fun m b => ob_max m (Some b)) (map snd oks ++ p1oks) hi) t os
+  | _, _ => true
+  end.
+
+Definition chk_acc (ticks : list (list ballot * list p2amsg)) (outs : list (list p1brep * list p2brep)) : N :=
+  bor (bit (Nat.eqb (length outs) (length ticks) &&
+            forallb (fun p => mset_eqb p1b_eqb (fst (fst p)) (fst (snd p)) && mset_eqb p2b_eqb (snd (fst p)) (snd (snd p)))
+                    (combine outs (acc_run acc_init ticks))) 1)
+      (bit (acc_obl [] [] None ticks outs) 2).
+
+(* ------------------------------------------------------------------------------------------
+   The PROPOSER node's sequencing after it became leader (sequence_payload as wired by paxos_core):
+   the quorum of p1b logs it was elected with stays visible in every later tick, so in EVERY tick
+   the recommit p2as are sent again and index_payloads starts again from (max slot in those
+   logs) + 1 -- only when the logs are empty does the running `next_slot` counter take over.
+   p2as of one tick, as (slot, value) at the leader's ballot: *)
+Fixpoint seq_run (f : N) (bal : ballot) (logs : list p1blog) (next : N) (ticks : list (list N))
+  : list (list (N * option N)) :=
+  match ticks with
+  | [] => []
+  | ps :: t =>
+      let mx := max_list (slots_of logs) in
+      let base := match mx with Some m => m + 1 | None => next end in
+      (map (fun o => (fst (fst o), snd o)) (px_recommit f bal logs) ++
+       combine (map (fun i => base + N.of_nat i) (seq 0 (length ps))) (map (@Some N) ps))
+      :: seq_run f bal logs (base + N.of_nat (length ps)) t
+  end.
+
+Definition sv_eqb (a b : N * option N) : bool := (fst a =? fst b) && ov_eqb (snd a) (snd b).
+(* one value per (ballot, slot): the abstract system's P2a freshness / invariant i2 *)
+Definition one_value_per_slot (outs : list (list (N * option N))) : bool :=
+  let all := concat outs in
+  forallb (fun a => forallb (fun b => negb (fst a =? fst b) || ov_eqb (snd a) (snd b)) all) all.
+
+Definition chk_seq (f : N) (bal : ballot) (logs : list p1blog) (ticks : list (list N))
+           (outs : list (list (N * option N))) : N :=
+  bor (bit (Nat.eqb (length outs) (length ticks) &&
+            forallb (fun p => mset_eqb sv_eqb (fst p) (snd p)) (combine outs (seq_run f bal logs 0 ticks))) 1)
+      (bit (one_value_per_slot outs) 2).
+
+(* a slot may be reported decided only when f+1 DISTINCT acceptors answered Ok for it (evaluated on
+   a scripted run of the real proposer node: per tick, the (acceptor, slot) Ok replies fed at the
+   leader's ballot and the slots it reported decided) *)
+Fixpoint dec_obl (f : N) (oks : list (N * N)) (ticks : list (list (N * N) * list N)) : bool :=
+  match ticks with
+  | [] => true
+  | (ok, dec) :: t =>
+      let oks' := ok ++ oks in
+      forallb (fun s => f <? N.of_nat (length (dedup (map fst (filter (fun p => snd p =? s) oks'))))) dec &&
+      dec_obl f oks' t
+  end.
+Definition chk_dec (f : N) (ticks : list (list (N * N) * list N)) : N := bit (dec_obl f [] ticks) 2.
+
 Definition bad (vs : list N) : list (N * N) :=
   filter (fun p => negb (snd p =? 0)) (combine (map N.of_nat (seq 0 (length vs))) vs).
